@@ -136,7 +136,21 @@ def _size(stmts: Sequence[ast.stmt]) -> int:
 def method_outcomes(repo: Repo, rel: str, cls: str, method: str, *, max_paths: int = 64) -> List[Outcome]:
     fn = repo.func(rel, f'{cls}.{method}')
     own = {n: fs[-1] for n, fs in repo.methods(rel, cls).items()}
-    return block_outcomes(list(fn.body), own, f'{cls}.{method}', max_paths=max_paths)
+    return block_outcomes(list(fn.body), own, f'{cls}.{method}', max_paths=max_paths, env0=module_constants(repo, rel))
+
+
+def module_constants(repo: Repo, rel: str) -> Dict[str, ast.expr]:
+    """private module-level names bound exactly once to a call-free expression (lifted literals): they read like their value."""
+    binds: Dict[str, ast.expr] = {}
+    counts: Dict[str, int] = {}
+    for st in repo.mod(rel).body:
+        tg = st.targets if isinstance(st, ast.Assign) else [st.target] if isinstance(st, ast.AnnAssign) and st.value is not None else []
+        for t in tg:
+            if isinstance(t, ast.Name):
+                counts[t.id] = counts.get(t.id, 0) + 1
+                if not any(isinstance(x, ast.Call) for x in ast.walk(st.value)):       # type: ignore[arg-type]
+                    binds[t.id] = st.value          # type: ignore[assignment]
+    return {k: v for k, v in binds.items() if counts.get(k) == 1 and k.startswith('_')}
 
 
 def _conj(test: ast.expr, positive: bool) -> List[str]:
@@ -155,7 +169,7 @@ def _conj(test: ast.expr, positive: bool) -> List[str]:
 
 
 def block_outcomes(body: Sequence[ast.stmt], own: Optional[Dict[str, Any]] = None, label: str = '<block>', *,
-                   max_paths: int = 64) -> List[Outcome]:
+                   max_paths: int = 64, env0: Optional[Dict[str, ast.expr]] = None) -> List[Outcome]:
     """outcomes of a statement list (e.g. a loop body): results are return / raise / continue / break / fall."""
     own = own or {}
     cls, method = label, ''
@@ -276,5 +290,5 @@ def block_outcomes(body: Sequence[ast.stmt], own: Optional[Dict[str, Any]] = Non
         st = {k: _text(v) or '' for k, v in env.items() if k.startswith('self.') and _text(v) != k}
         outcomes.append(Outcome(list(conds), st, list(effects), result))
 
-    run(list(body), {}, [], [], 0, done)
+    run(list(body), dict(env0 or {}), [], [], 0, done)
     return outcomes
